@@ -42,6 +42,11 @@ def executed_steps(events):
     return sorted({e["step"] for e in events if e["ev"] == "cmd_start"})
 
 
+def validated_steps(events):
+    """Steps whose dynamic dependencies were validated (hash check of a step that amended something)."""
+    return sorted({e["step"] for e in events if e["ev"] == "pop" and e.get("kind") == "ValidateDynamicJob"})
+
+
 def exec_hist_case(case: dict) -> dict:
     project, phases = case["project"], case["phases"]
     rels = []
@@ -90,7 +95,7 @@ def exec_hist_case(case: dict) -> dict:
                 k += 1
                 rels.append({"tid": case["tid"], "k": k, "rel": "cone", "a": side(out["runs"][i - 1]), "b": side(out["runs"][i]),
                              "info": {"edited": sorted({e[1] for e in edits_i}), "executed": executed_steps(per_run[i]),
-                                      "phase": i}})
+                                      "validated": validated_steps(per_run[i]), "phase": i}})
         if "C04" in case["want"] and a["rc"] in (0, 8) and last_rc(out["runs"][-1]) in (0, 8):
             # --- no-op rebuild (restart)
             rng = random.Random(case.get("seed", 0))
@@ -138,7 +143,7 @@ def exec_hist_case(case: dict) -> dict:
                 post2 = side(out4["runs"][-1])
                 k += 1
                 rels.append({"tid": case["tid"], "k": k, "rel": "cone", "a": post, "b": post2,
-                             "info": {"edited": X, "executed": executed_steps(out4["events"])}})
+                             "info": {"edited": X, "executed": executed_steps(out4["events"]), "validated": validated_steps(out4["events"])}})
                 replay["cone_edits"] = edits
     finally:
         world.destroy()
